@@ -1,6 +1,7 @@
 """Replay of LwConverter programs: build the qiskit circuit, convert it, compare the decisions with the model and check the
 property itself (accepted amplitudes = one scalar x the column of qiskit's unitary)."""
 import itertools
+import math
 import random
 
 import numpy as np
@@ -8,7 +9,9 @@ import numpy as np
 SINGLE = ["h", "t", "s", "sx", "x", "y", "z", "sdg", "tdg", ("rx", 0.7), ("ry", 1.1), ("rz", 0.3), ("p", 0.5), None, None,
           ("rx", -0.9), ("ry", -2.3), ("rz", -1.7), ("p", -0.8), ("rx", 7.9), ("ry", 9.1), ("rz", 11.0), ("p", 6.9),
           # angles that differ from the ones above in the fifth decimal (anything keyed on a rounded angle confuses them)
-          ("rx", 0.70003), ("ry", 1.10004), ("rz", 0.29997), ("p", 0.50002), ("rx", 0.69996)]
+          ("rx", 0.70003), ("ry", 1.10004), ("rz", 0.29997), ("p", 0.50002), ("rx", 0.69996),
+          # phases a few 1e-6 away from a multiple of pi/2 (where "snapping to the exact value" would be tempting)
+          ("p", math.pi / 2 + 3e-6), ("p", 2 * math.pi - 2e-6), ("p", 4e-6), ("p", math.pi + 5e-6), ("rz", math.pi / 2 - 3e-6), ("p", -math.pi / 2 + 2e-6)]
 
 
 def build_qc(gates, nq, seed):
@@ -112,7 +115,10 @@ def worker(st, ctx):
     old = signal.signal(signal.SIGALRM, _alarm)
     signal.alarm(5)
     try:
-        circ, ps = qubit.qiskit_converter(qc, allow_post_selection=allow)
+        # the flag in the forms a caller may hold it: bool, numpy bool, int
+        k_ = hash(repr(gates)) % 3
+        flag = allow if k_ == 0 else (np.bool_(allow) if k_ == 1 else int(allow))
+        circ, ps = qubit.qiskit_converter(qc, allow_post_selection=flag)
     except _Hang:
         out["findings"].append(("unitary", "qiskit_converter did not return within 5 s (neither a circuit nor a refusal); gates %s" % (desc,)))
         return out
